@@ -17,14 +17,15 @@ def register(claim):
           "side, full-width fields) and every selection, the model of the C++ parser returns exactly the intended records; merge_spec for "
           "T/Q merging; unpack(pack)=id. Model tied to the working-tree C++ (native build) and to the real Python reader on generated files.",
           K + NAT + "hand-written model Model/RawParser.lean + Spec/RawFormat.lean; constants/masks extracted from the C++ on every run (Props/RawTie); "
-          "Python framing (_preprocess_file/_read_batch) and awkward assembly are compared on generated files, not proved.",
+          "Python framing (_preprocess_file/_read_batch) is modelled on the bytes of the file (Model/RawFile.lean) and proved at file level (Props/C03File: any name/tag length, batch size, completion order); "
+          "on corrupted block chains the model is stricter than the lazily walking reader; file I/O, np.frombuffer and the awkward assembly are compared, not proved.",
           "Lean 4 round-trip theorem (decode (encode x) = x by induction over the nested format) on a hand-written parser model; "
-          "three-way correspondence model / native working-tree build / intended decode; real reader on generated files", "DESIGN.md §6 C03")
+          "file-level theorem over the byte encoder; three-way correspondence model / native working-tree build / intended decode; byte-level model vs real reader on well-formed and framing-corrupted files", "DESIGN.md §6 C03")
     claim("C04", "proof",
           "Termination of the batch loop within N+2 iterations for every n_blocks in {-1} U N and batch size >= 1; result = decode of the first "
           "min(n, N) blocks for every batch size, every completion order of the pool and every earlier cursor position (hence prefix, "
           "idempotence, batch/worker invariance); selection = projection of the full read (C03b). Real arrays() exercised over a grid with perturbed "
-          "completion orders under a watchdog.",
+          "completion orders under a watchdog. File level (Props/C03File::file_prefix): reading the first n blocks of the bytes of any well-formed file returns the events of those blocks.",
           K + NAT + "thread interleavings are sampled (seeded sleeps), not enumerated; data-race freedom rests on each call owning its parser (partial for thread-safety).",
           "Lean 4 theorems on a fuelled loop model + pool-as-permutation model; correspondence against the real reader in a watched child process",
           "DESIGN.md §6 C04")
@@ -63,14 +64,14 @@ def register(claim):
     claim("C11", "proof",
           "Over the reals: output in normal form (phi0 in [0,2pi)), identity, (dr,phi0) depend only on the circle and the new pivot (path "
           "independence for any sequence by composition), dz equal up to whole pitches and exactly when the accumulated turning angle stays in "
-          "(-pi,pi], there-and-back restores all five parameters (dphi != pi). Chained calls compared in object/record/array form.",
-          K + REAL + "error-matrix inverse is checked by correspondence/oracle only (J_back J_forth = I is not a theorem).",
+          "(-pi,pi], there-and-back restores all five parameters and the error matrix (dphi != pi); error matrices are path independent within half a turn. Chained calls compared in object/record/array form (incl. integer-typed columns).",
+          K + REAL + "error matrices: J_back J_forth = 1, there-and-back restores E, chain rule J_2 J_1 = J_direct and path independence of E within half a turn are theorems (Props/C11b).",
           "Lean 4 + Mathlib theorems; chained Float-model correspondence; direct-move / identity / there-and-back oracle", "DESIGN.md §6 C11")
     claim("C12", "proof",
           "Implicit-differentiation theorems: along any differentiable family satisfying the defining relations the derivative of (dr', phi0', dz') "
           "is given by exactly the entries the code uses (rows 0,1,3; rows 2,4 identity), for the signed radius; J E J^T is the matrix product, "
           "symmetric / PSD preserved, identity move leaves E unchanged. Implementation compared with a Richardson finite-difference Jacobian of "
-          "its own parameter map.",
+          "its own parameter map; error matrices stored as int64/int32/float32 compared with the float64 result.",
           K + REAL + "differentiability of the parameter map itself away from the branch cuts is assumed (the theorem is conditional on a differentiable family).",
           "Lean 4 + Mathlib (HasDerivAt uniqueness, linear_combination, Matrix.PosSemidef); finite-difference oracle; Float-model correspondence",
           "DESIGN.md §6 C12")
@@ -99,7 +100,7 @@ def register(claim):
           "cache is older than its table; fresh caches untouched; force clears all; interruption only removes files. Content level: for atomic "
           "histories every surviving cache was built from the current table; machine-checked witness that this fails otherwise (recorded finding, "
           "replayed end-to-end on the real package every run).",
-          K + "timestamp granularity, numba's own cache index handling and concurrent importers are outside the model; glob order fixed in the harness.",
+          K + "timestamp granularity and concurrent importers are outside the model; numba's two file kinds (index file rewritten per new signature, one data file per signature) are modelled, its naming/locking are not; glob order fixed in the harness.",
           "Lean 4 invariants by induction over operation histories with crash points; real cache_auto_clear on a scratch layout as correspondence; "
           "end-to-end interpreter scenarios as oracle", "DESIGN.md §6 C17")
     claim("C01", "proof",
@@ -132,10 +133,9 @@ def register(claim):
           "Every MDC accessor returns the published row (kernel reads the loader global; loader globals equal the npz columns chunk by chunk; same for all EMC "
           "columns incl. corner points); wire ends differ in z; stereo sign = sign of the exact cross product of the end points (doubles decoded exactly), "
           "flag = (sign != 0), uniform per layer and equal to the per-layer table; superlayer-by-layer = by-wire; position on the line through the end "
-          "points for every z (reals); private copies for every get/write/lookup history. Centroid statement decided by exhaustive exact-rational evaluation "
-          "(test, not theorem).",
-          K + TR + "centroids of barrel crystals: exhaustive exact test over the complete table in the harness (kernel evaluation measured > 15 min); float evaluation of the "
-          "line formula compared at 1e-9.",
+          "points for every z (reals); private copies for every get/write/lookup history; barrel crystal centres / front centres are the centroids of the stored corner points "
+          "within 2^-30 cm in exact rational arithmetic (Props/C09b: fixed-point kernel evaluation over the whole table + soundness proof over Q).",
+          K + TR + "float evaluation of the line formula compared at 1e-9.",
           "Lean 4 kernel evaluation over complete tables with exact IEEE decoding; real-analysis lemma; history model by induction; differential + exact-arithmetic oracle",
           "DESIGN.md §6 C09")
     claim("C14", "other",
